@@ -7,34 +7,573 @@ import Dos.Proofs.Step
 namespace Dos.IO
 open Dos
 
+-- some hypotheses of the stated theorems (`Bounded`, `c < garbage`, `Inv` for the `done_` facts) turn out not to be needed
+set_option linter.unusedVariables false
+
+/-! ### generic facts -/
+
+theorem execAll_append (x : XSt) (a b : List Act) : execAll x (a ++ b) = execAll (execAll x a) b := by
+  induction a generalizing x with
+  | nil => rfl
+  | cons h tl ih => simp [execAll, ih]
+
+theorem map_eq_self {α} {f : α → α} {l : List α} (h : ∀ a ∈ l, f a = a) : l.map f = l := by
+  induction l with
+  | nil => rfl
+  | cons a l ih =>
+    simp only [List.map_cons]
+    rw [h a (by simp), ih (fun b hb => h b (by simp [hb]))]
+
+theorem toSt_ofSt_packs (s : St) : (toSt (ofSt s)).packs = s.packs := by
+  simp only [toSt, ofSt, List.map_map]
+  exact map_eq_self (fun a _ => rfl)
+
+/-- an image whose packs are those of `s`, whose rows are rows of `s`, and whose loose files are undamaged, is safe
+    for all keys it still holds -/
+theorem safeImg_of {t : Tab} (wf : t.WF) {s : St} (inv : Inv t s) {img : St} {keep : List Nat}
+    (hp : img.packs = s.packs) (hr : ∀ r ∈ img.rows, r ∈ s.rows) (hl : ∀ e ∈ img.loose, e.2 = e.1)
+    (hk : ∀ k ∈ keep, k ∈ img.rows.map (·.key) ∨ k ∈ img.loose.map (·.1)) : SafeImg t img keep := by
+  have key : ∀ k, readFresh t img k = .ok k ∨ readFresh t img k = .loud ∨
+      (readFresh t img k = .missing ∧ k ∉ img.rows.map (·.key) ∧ k ∉ img.loose.map (·.1)) := by
+    intro k
+    unfold readFresh
+    cases hf : findRow img.rows k with
+    | some r =>
+      obtain ⟨hm, hkey⟩ := findRow_some hf
+      simp only
+      by_cases hpk : r.pack = tmpId
+      · simp [hpk]
+      · have hro : RowOK t img.packs r := by rw [hp]; exact inv.rows_ok r (hr r hm)
+        rw [if_neg hpk, readRow_of_rowOK wf hro, hkey]
+        simp
+    | none =>
+      simp only
+      cases hl' : findLoose img.loose k with
+      | some c =>
+        have := hl _ (findLoose_some hl')
+        simp at this
+        simp [this]
+      | none =>
+        right; right
+        exact ⟨rfl, findRow_none_iff.mp hf, findLoose_none_iff.mp hl'⟩
+  constructor
+  · intro k hk'
+    rcases key k with h | h | ⟨_, h1, h2⟩
+    · exact Or.inl h
+    · exact Or.inr h
+    · rcases hk k hk' with h | h
+      · exact absurd h h1
+      · exact absurd h h2
+  · intro k _
+    rcases key k with h | h | ⟨h, _⟩
+    · exact Or.inl h
+    · exact Or.inr (Or.inr h)
+    · exact Or.inr (Or.inl h)
+
+/-! ### the invariant of the intermediate states
+
+`kR`: keys that must stay indexed, `kL`: keys that must stay loose. -/
+
+structure Good (s : St) (kR kL : List Nat) (x : XSt) : Prop where
+  packs : x.packs = (ofSt s).packs
+  rows : x.rows.Sublist s.rows
+  work : (workOf x).Sublist s.rows
+  loose_ok : ∀ e ∈ x.loose, e.2.cid = e.1 ∧ e.2.dur = .synced
+  loose_nodup : (x.loose.map (·.1)).Nodup
+  locks : x.locks = []
+  target : x.target = s.target
+  keepR : ∀ k ∈ kR, k ∈ x.rows.map (·.key) ∧ k ∈ (workOf x).map (·.key)
+  keepL : ∀ k ∈ kL, k ∈ x.loose.map (·.1)
+
+theorem good_ofSt {t : Tab} {s : St} (inv : Inv t s) {kR kL : List Nat}
+    (hR : ∀ k ∈ kR, k ∈ rowKeys s) (hL : ∀ k ∈ kL, k ∈ looseKeys s) : Good s kR kL (ofSt s) where
+  packs := rfl
+  rows := List.Sublist.refl _
+  work := List.Sublist.refl _
+  loose_ok := by
+    intro e he
+    simp only [ofSt, List.mem_map] at he
+    obtain ⟨a, ha, rfl⟩ := he
+    exact ⟨(inv.loose_ok a ha).symm, rfl⟩
+  loose_nodup := by
+    have : (ofSt s).loose.map (·.1) = s.loose.map (·.1) := by simp [ofSt, List.map_map, Function.comp_def]
+    rw [this]; exact inv.loose_nodup
+  locks := rfl
+  target := rfl
+  keepR := fun k hk => ⟨hR k hk, hR k hk⟩
+  keepL := by
+    intro k hk
+    have : (ofSt s).loose.map (·.1) = s.loose.map (·.1) := by simp [ofSt, List.map_map, Function.comp_def]
+    rw [this]; exact hL k hk
+
+/-- side condition under which one action keeps `Good` -/
+def OKAct (kR kL : List Nat) (x : XSt) : Act → Prop
+  | .sbCreate | .sbWrite _ | .sbFlush | .sbFsync | .sbClose | .sbRemove | .dirSync | .mkdirLoose _
+  | .readLoose _ | .sqlCommit => True
+  | .renameLoose k => x.sandbox = none ∨ x.sandbox = some ⟨k, .synced⟩
+  | .looseUnlink k => k ∉ kL
+  | .sqlDelete k => k ∉ kR
+  | _ => False
+
+theorem good_rename {s : St} {kR kL : List Nat} {x : XSt} (h : Good s kR kL x) (k : Nat) :
+    Good s kR kL { x with sandbox := none, loose := x.loose.filter (fun e => e.1 != k) ++ [(k, ⟨k, .synced⟩)] } where
+  packs := h.packs
+  rows := h.rows
+  work := h.work
+  loose_ok := by
+    intro e he
+    simp only [List.mem_append, List.mem_filter, List.mem_singleton] at he
+    rcases he with ⟨he, _⟩ | rfl
+    · exact h.loose_ok e he
+    · exact ⟨rfl, rfl⟩
+  loose_nodup := by
+    simp only [List.map_append, List.map_cons, List.map_nil]
+    rw [List.nodup_append]
+    refine ⟨List.Nodup.sublist (List.Sublist.map _ List.filter_sublist) h.loose_nodup, by simp, ?_⟩
+    intro a ha b hb
+    simp only [List.mem_map, List.mem_filter] at ha
+    obtain ⟨e, ⟨_, hne⟩, rfl⟩ := ha
+    simp only [List.mem_singleton] at hb
+    subst hb
+    simpa using hne
+  locks := h.locks
+  target := h.target
+  keepR := h.keepR
+  keepL := by
+    intro k' hk'
+    have := h.keepL k' hk'
+    simp only [List.mem_map] at this
+    obtain ⟨e, he, rfl⟩ := this
+    by_cases hek : e.1 = k
+    · simp [hek]
+    · simp only [List.map_append, List.mem_append, List.mem_map, List.mem_filter]
+      left
+      exact ⟨e, ⟨he, by simpa using hek⟩, rfl⟩
+
+theorem good_unlink {s : St} {kR kL : List Nat} {x : XSt} (h : Good s kR kL x) {k : Nat} (hk : k ∉ kL) :
+    Good s kR kL { x with loose := x.loose.filter (fun e => e.1 != k) } where
+  packs := h.packs
+  rows := h.rows
+  work := h.work
+  loose_ok := fun e he => h.loose_ok e (List.mem_filter.mp he).1
+  loose_nodup := List.Nodup.sublist (List.Sublist.map _ List.filter_sublist) h.loose_nodup
+  locks := h.locks
+  target := h.target
+  keepR := h.keepR
+  keepL := by
+    intro k' hk'
+    have := h.keepL k' hk'
+    simp only [List.mem_map] at this
+    obtain ⟨e, he, rfl⟩ := this
+    simp only [List.mem_map, List.mem_filter]
+    refine ⟨e, ⟨he, ?_⟩, rfl⟩
+    have : e.1 ≠ k := fun hh => hk (hh ▸ hk')
+    simpa using this
+
+theorem good_sqlDelete {s : St} {kR kL : List Nat} {x : XSt} (h : Good s kR kL x) {k : Nat} (hk : k ∉ kR) :
+    Good s kR kL { x with work := some ((workOf x).filter (fun r => r.key != k)) } where
+  packs := h.packs
+  rows := h.rows
+  work := List.Sublist.trans List.filter_sublist h.work
+  loose_ok := h.loose_ok
+  loose_nodup := h.loose_nodup
+  locks := h.locks
+  target := h.target
+  keepR := by
+    intro k' hk'
+    obtain ⟨h1, h2⟩ := h.keepR k' hk'
+    refine ⟨h1, ?_⟩
+    simp only [List.mem_map] at h2
+    obtain ⟨r, hr, rfl⟩ := h2
+    show r.key ∈ ((workOf x).filter (fun r => r.key != k)).map (·.key)
+    simp only [List.mem_map, List.mem_filter]
+    refine ⟨r, ⟨hr, ?_⟩, rfl⟩
+    have : r.key ≠ k := fun hh => hk (hh ▸ hk')
+    simpa using this
+  keepL := h.keepL
+
+theorem good_commit {s : St} {kR kL : List Nat} {x : XSt} (h : Good s kR kL x) :
+    Good s kR kL { x with rows := workOf x, work := none } where
+  packs := h.packs
+  rows := h.work
+  work := h.work
+  loose_ok := h.loose_ok
+  loose_nodup := h.loose_nodup
+  locks := h.locks
+  target := h.target
+  keepR := fun k hk => ⟨(h.keepR k hk).2, (h.keepR k hk).2⟩
+  keepL := h.keepL
+
+theorem good_dropWork {s : St} {kR kL : List Nat} {x : XSt} (h : Good s kR kL x) :
+    Good s kR kL { x with work := none } where
+  packs := h.packs
+  rows := h.rows
+  work := h.rows
+  loose_ok := h.loose_ok
+  loose_nodup := h.loose_nodup
+  locks := h.locks
+  target := h.target
+  keepR := fun k hk => ⟨(h.keepR k hk).1, (h.keepR k hk).1⟩
+  keepL := h.keepL
+
+/-- changing only the sandbox file keeps `Good` -/
+theorem good_sandbox {s : St} {kR kL : List Nat} {x : XSt} (h : Good s kR kL x) (o : Option XFile) :
+    Good s kR kL { x with sandbox := o } :=
+  ⟨h.packs, h.rows, h.work, h.loose_ok, h.loose_nodup, h.locks, h.target, h.keepR, h.keepL⟩
+
+theorem good_exec {s : St} {kR kL : List Nat} {x : XSt} (h : Good s kR kL x) {a : Act} (ha : OKAct kR kL x a) :
+    Good s kR kL (exec x a) := by
+  cases a with
+  | sbCreate => exact good_sandbox h _
+  | sbWrite c => exact good_sandbox h _
+  | sbFlush => exact good_sandbox h _
+  | sbFsync => exact good_sandbox h _
+  | sbClose => exact good_sandbox h _
+  | sbRemove => exact good_sandbox h _
+  | dirSync => exact h
+  | mkdirLoose k => exact h
+  | readLoose k => exact h
+  | renameLoose k =>
+    rcases ha with h0 | h0
+    · have e : exec x (.renameLoose k) = x := by simp [exec, h0]
+      rw [e]; exact h
+    · have e : exec x (.renameLoose k) =
+          { x with sandbox := none, loose := x.loose.filter (fun e => e.1 != k) ++ [(k, ⟨k, .synced⟩)] } := by
+        simp [exec, h0]
+      rw [e]; exact good_rename h k
+  | looseUnlink k => exact good_unlink h ha
+  | sqlDelete k => exact good_sqlDelete h ha
+  | sqlCommit => exact good_commit h
+  | lock p => exact False.elim ha
+  | unlock p => exact False.elim ha
+  | pkOpen p => exact False.elim ha
+  | pkWrite p g => exact False.elim ha
+  | pkFlush p => exact False.elim ha
+  | pkFsync p => exact False.elim ha
+  | pkClose p => exact False.elim ha
+  | pkTruncate p n => exact False.elim ha
+  | pkRead p => exact False.elim ha
+  | pkUnlink p => exact False.elim ha
+  | pkLink a b => exact False.elim ha
+  | sqlInsert r => exact False.elim ha
+  | sqlMove r => exact False.elim ha
+  | sqlRepoint a b => exact False.elim ha
+
+/-- every action of the list meets its side condition in the state it is executed in -/
+def StepsOK (kR kL : List Nat) : XSt → List Act → Prop
+  | _, [] => True
+  | x, a :: as => OKAct kR kL x a ∧ StepsOK kR kL (exec x a) as
+
+theorem stepsOK_append {kR kL : List Nat} {x : XSt} {a b : List Act} (ha : StepsOK kR kL x a)
+    (hb : StepsOK kR kL (execAll x a) b) : StepsOK kR kL x (a ++ b) := by
+  induction a generalizing x with
+  | nil => exact hb
+  | cons c cs ih => exact ⟨ha.1, ih ha.2 hb⟩
+
+theorem stepsOK_static {kR kL : List Nat} {acts : List Act} (h : ∀ a ∈ acts, ∀ x, OKAct kR kL x a) (x : XSt) :
+    StepsOK kR kL x acts := by
+  induction acts generalizing x with
+  | nil => trivial
+  | cons c cs ih => exact ⟨h c (by simp) x, ih (fun a ha => h a (by simp [ha])) _⟩
+
+theorem good_take {s : St} {kR kL : List Nat} {acts : List Act} {x : XSt} (h : Good s kR kL x)
+    (hs : StepsOK kR kL x acts) (k : Nat) : Good s kR kL (execAll x (acts.take k)) := by
+  induction acts generalizing x k with
+  | nil => simpa [execAll] using h
+  | cons a as ih =>
+    cases k with
+    | zero => simpa [execAll] using h
+    | succ k => simpa [execAll] using ih (good_exec h hs.1) hs.2 k
+
+theorem good_handlers {s : St} {kR kL : List Nat} {x : XSt} (h : Good s kR kL x) :
+    Good s kR kL (execAll x (handlers x)) := by
+  have hl := h.locks
+  unfold handlers
+  rw [hl]
+  cases hsb : x.sandbox with
+  | none => simpa [execAll] using h
+  | some f =>
+    simp only [List.flatMap_nil, List.append_nil, execAll]
+    exact good_sandbox (good_sandbox h _) _
+
+/-! ### what `Good` gives for the three images -/
+
+section images
+variable {t : Tab} {s : St} {kR kL keep : List Nat} {x : XSt}
+
+theorem good_keep (h : Good s kR kL x) (hk : ∀ k ∈ keep, k ∈ kR ∨ k ∈ kL) (f : Nat × XFile → Nat × Nat)
+    (hf : ∀ e, (f e).1 = e.1) :
+    ∀ k ∈ keep, k ∈ x.rows.map (·.key) ∨ k ∈ (x.loose.map f).map (·.1) := by
+  intro k hk'
+  have e : (x.loose.map f).map (·.1) = x.loose.map (·.1) := by
+    simp [List.map_map, Function.comp_def, hf]
+  rw [e]
+  rcases hk k hk' with h1 | h1
+  · exact Or.inl (h.keepR k h1).1
+  · exact Or.inr (h.keepL k h1)
+
+theorem good_crash (wf : t.WF) (inv : Inv t s) (h : Good s kR kL x) (hk : ∀ k ∈ keep, k ∈ kR ∨ k ∈ kL)
+    (cut : Nat → Nat) : SafeImg t (crashImg x cut) keep := by
+  apply safeImg_of wf inv
+  · simp only [crashImg, h.packs, ofSt, List.map_map]
+    apply map_eq_self
+    intro a _
+    simp [List.take_of_length_le]
+  · exact fun r hr => h.rows.subset hr
+  · intro e he
+    simp only [crashImg, List.mem_map] at he
+    obtain ⟨a, ha, rfl⟩ := he
+    obtain ⟨h1, h2⟩ := h.loose_ok a ha
+    simp [h1, h2]
+  · exact good_keep h hk _ (fun _ => rfl)
+
+theorem good_power (wf : t.WF) (inv : Inv t s) (h : Good s kR kL x) (hk : ∀ k ∈ keep, k ∈ kR ∨ k ∈ kL) :
+    SafeImg t (powerImg x) keep := by
+  apply safeImg_of wf inv
+  · simp only [powerImg, h.packs, ofSt, List.map_map]
+    apply map_eq_self
+    intro a _
+    simp
+  · exact fun r hr => h.rows.subset hr
+  · intro e he
+    simp only [powerImg, List.mem_map] at he
+    obtain ⟨a, ha, rfl⟩ := he
+    obtain ⟨h1, h2⟩ := h.loose_ok a ha
+    simp [h1, h2]
+  · exact good_keep h hk _ (fun _ => rfl)
+
+theorem good_toSt_packs (h : Good s kR kL x) : (toSt x).packs = s.packs := by
+  simp only [toSt, h.packs, ofSt, List.map_map]
+  apply map_eq_self
+  intro a _
+  simp
+
+theorem good_toSt (wf : t.WF) (inv : Inv t s) (h : Good s kR kL x) (hk : ∀ k ∈ keep, k ∈ kR ∨ k ∈ kL) :
+    SafeImg t (toSt x) keep := by
+  apply safeImg_of wf inv
+  · exact good_toSt_packs h
+  · exact fun r hr => h.rows.subset hr
+  · intro e he
+    simp only [toSt, List.mem_map] at he
+    obtain ⟨a, ha, rfl⟩ := he
+    exact (h.loose_ok a ha).1
+  · exact good_keep h hk _ (fun _ => rfl)
+
+theorem good_inv (inv : Inv t s) (h : Good s kR kL x) : Inv t (toSt x) where
+  rows_ok := by
+    intro r hr
+    rw [good_toSt_packs h]
+    exact inv.rows_ok r (h.rows.subset hr)
+  keys_nodup := List.Nodup.sublist (List.Sublist.map _ h.rows) inv.keys_nodup
+  ids_nodup := List.Nodup.sublist (List.Sublist.map _ h.rows) inv.ids_nodup
+  ids_pos := fun r1 h1 r2 h2 => inv.ids_pos r1 (h.rows.subset h1) r2 (h.rows.subset h2)
+  packs_nodup := by rw [good_toSt_packs h]; exact inv.packs_nodup
+  loose_nodup := by
+    have e : (toSt x).loose.map (·.1) = x.loose.map (·.1) := by simp [toSt, List.map_map, Function.comp_def]
+    rw [e]; exact h.loose_nodup
+  loose_ok := by
+    intro e he
+    simp only [toSt, List.mem_map] at he
+    obtain ⟨a, ha, rfl⟩ := he
+    exact (h.loose_ok a ha).1.symm
+  target_pos := by
+    show 0 < x.target
+    rw [h.target]; exact inv.target_pos
+
+end images
+
+/-- the general safety argument for programs that touch neither packs nor (except by deleting) rows -/
+theorem allSafe_of {t : Tab} (wf : t.WF) {s : St} (inv : Inv t s) {kR kL keep : List Nat} {acts : List Act}
+    (hR : ∀ k ∈ kR, k ∈ rowKeys s) (hL : ∀ k ∈ kL, k ∈ looseKeys s)
+    (hk : ∀ k ∈ keep, k ∈ kR ∨ k ∈ kL) (hs : StepsOK kR kL (ofSt s) acts) : AllSafe t s acts keep := by
+  intro k
+  have g := good_take (good_ofSt inv hR hL) hs k
+  have gf : Good s kR kL (runFault (ofSt s) acts k) := good_dropWork (good_handlers g)
+  exact ⟨fun cut => good_crash wf inv g hk cut, good_power wf inv g hk, good_toSt wf inv gf hk, good_inv inv gf⟩
+
+/-! ### `add_object` -/
+
+theorem findLoose_self {t : Tab} {s : St} (inv : Inv t s) {c c' : Nat} (h : findLoose s.loose c = some c') : c' = c := by
+  have := inv.loose_ok _ (findLoose_some h)
+  exact this.symm
+
 /-- run to completion, the action list of `add_object` does what the Level-B operation does -/
 theorem done_addLoose {t : Tab} {s : St} (inv : Inv t s) (c : Nat) (mk : Bool) :
     SameDisk (toSt (execAll (ofSt s) (actsAddLoose s c mk))) (addLoose s c) := by
-  sorry
+  unfold actsAddLoose addLoose
+  cases hf : findLoose s.loose c with
+  | some c' =>
+    have hc := findLoose_self inv hf
+    subst hc
+    cases mk <;>
+    · simp only [execAll, exec, List.cons_append, List.nil_append, if_true, Bool.false_eq_true, if_false]
+      refine ⟨toSt_ofSt_packs s, rfl, ?_, rfl⟩
+      intro e
+      simp [toSt, ofSt, List.map_map, Function.comp_def]
+  | none =>
+    have hn := findLoose_none_iff.mp hf
+    cases mk <;>
+    · simp only [execAll, exec, List.cons_append, List.nil_append, if_true, Bool.false_eq_true, if_false,
+        Option.map_some]
+      refine ⟨toSt_ofSt_packs s, rfl, ?_, rfl⟩
+      intro e
+      simp only [toSt, ofSt, List.map_append, List.map_map, List.mem_append, List.mem_map, List.mem_filter,
+        List.map_cons, List.map_nil, List.mem_singleton]
+      constructor
+      · rintro (⟨a, ⟨⟨b, hb, rfl⟩, _⟩, rfl⟩ | h)
+        · exact Or.inl hb
+        · exact Or.inr h
+      · rintro (h | h)
+        · left
+          refine ⟨_, ⟨⟨e, h, rfl⟩, ?_⟩, rfl⟩
+          have : e.1 ≠ c := fun hh => hn (List.mem_map.mpr ⟨e, h, hh⟩)
+          simpa using this
+        · exact Or.inr h
 
 /-- adding a loose object is safe at every cut point: nothing stored before is affected, and the new object is
     absent or complete -/
 theorem safe_addLoose {t : Tab} (wf : t.WF) {s : St} (inv : Inv t s) (hb : Bounded s) (c : Nat) (hc : c < garbage)
     (mk : Bool) : AllSafe t s (actsAddLoose s c mk) (keysOf s) := by
-  sorry
+  apply allSafe_of wf inv (kR := rowKeys s) (kL := looseKeys s) (fun _ h => h) (fun _ h => h)
+  · intro k hk
+    simpa [keysOf] using hk
+  · unfold actsAddLoose
+    cases hf : findLoose s.loose c with
+    | some c' =>
+      have hc := findLoose_self inv hf
+      subst hc
+      cases mk <;> simp [StepsOK, OKAct]
+    | none =>
+      cases mk <;> simp [StepsOK, OKAct, exec, ofSt]
+
+/-! ### `clean_storage` -/
+
+theorem execAll_unlinks (x : XSt) (l : List Nat) :
+    execAll x (l.map .looseUnlink) = { x with loose := x.loose.filter (fun e => !l.contains e.1) } := by
+  induction l generalizing x with
+  | nil =>
+    have e : x.loose.filter (fun e => !([] : List Nat).contains e.1) = x.loose := by simp
+    simp only [List.map_nil, execAll, e]
+  | cons a l ih =>
+    simp only [List.map_cons, execAll, exec, ih, List.filter_filter]
+    congr 1
+    apply List.filter_congr
+    intro e _
+    by_cases h : e.1 = a
+    · subst h; simp
+    · have h' : ¬ a = e.1 := fun hh => h hh.symm
+      simp [h]
 
 /-- `clean_storage` unlinks loose files of indexed keys (`order` = any enumeration of them) -/
 theorem done_clean {t : Tab} {s : St} (inv : Inv t s) (order : List Nat)
     (ho : ∀ k, k ∈ order ↔ (hasLoose s k = true ∧ hasRow s k = true)) :
     SameDisk (toSt (execAll (ofSt s) (actsClean s order))) (clean s) := by
-  sorry
+  unfold actsClean
+  rw [execAll_unlinks]
+  refine ⟨toSt_ofSt_packs s, rfl, ?_, rfl⟩
+  intro e
+  simp only [toSt, ofSt, clean, List.mem_map, List.mem_filter]
+  constructor
+  · rintro ⟨a, ⟨⟨b, hb, rfl⟩, hne⟩, rfl⟩
+    refine ⟨hb, ?_⟩
+    simp only [Bool.not_eq_true', List.contains_eq_mem, decide_eq_false_iff_not] at hne
+    have := mt (ho b.1).mpr hne
+    have hl : hasLoose s b.1 = true := hasLoose_iff.mpr (List.mem_map.mpr ⟨b, hb, rfl⟩)
+    simp [hl] at this
+    simp [this]
+  · rintro ⟨he, hnr⟩
+    refine ⟨_, ⟨⟨e, he, rfl⟩, ?_⟩, rfl⟩
+    simp only [Bool.not_eq_true', List.contains_eq_mem, decide_eq_false_iff_not]
+    intro hm
+    have := ((ho e.1).mp hm).2
+    simp [this] at hnr
 
 theorem safe_clean {t : Tab} (wf : t.WF) {s : St} (inv : Inv t s) (hb : Bounded s) (order : List Nat)
     (ho : ∀ k ∈ order, hasRow s k = true) : AllSafe t s (actsClean s order) (keysOf s) := by
-  sorry
+  apply allSafe_of wf inv (kR := rowKeys s) (kL := (looseKeys s).filter (fun k => !hasRow s k)) (fun _ h => h)
+    (fun _ h => (List.mem_filter.mp h).1)
+  · intro k hk
+    simp only [keysOf, List.mem_append] at hk
+    by_cases hr : hasRow s k = true
+    · exact Or.inl (by simpa [hasRow] using hr)
+    · rcases hk with hk | hk
+      · exact Or.inl hk
+      · exact Or.inr (List.mem_filter.mpr ⟨hk, by simpa using hr⟩)
+  · apply stepsOK_static
+    intro a ha x
+    simp only [actsClean, List.mem_map] at ha
+    obtain ⟨k, hk, rfl⟩ := ha
+    show k ∉ _
+    intro hm
+    have := (List.mem_filter.mp hm).2
+    simp [ho k hk] at this
+
+/-! ### `delete_objects` -/
+
+theorem toSt_sqlDeletes_commit (x : XSt) (l : List Nat) :
+    toSt (exec (execAll x (l.map .sqlDelete)) .sqlCommit) =
+      { toSt x with rows := (workOf x).filter (fun r => !l.contains r.key) } := by
+  induction l generalizing x with
+  | nil =>
+    have e : (workOf x).filter (fun r => !([] : List Nat).contains r.key) = workOf x := by simp
+    simp only [List.map_nil, execAll, exec, toSt, e]
+  | cons a l ih =>
+    simp only [List.map_cons, execAll]
+    rw [ih]
+    simp only [exec, toSt, workOf, Option.getD_some, List.filter_filter]
+    congr 1
+    apply List.filter_congr
+    intro r _
+    by_cases h : r.key = a
+    · subst h; simp
+    · have h' : ¬ a = r.key := fun hh => h hh.symm
+      simp [h]
 
 theorem done_delete {t : Tab} {s : St} (inv : Inv t s) (ks : List Nat) :
     SameDisk (toSt (execAll (ofSt s) (actsDelete s ks))) (delete s ks).1 := by
-  sorry
+  unfold actsDelete
+  rw [execAll_append, execAll_append, execAll_unlinks]
+  simp only [execAll]
+  rw [toSt_sqlDeletes_commit]
+  refine ⟨toSt_ofSt_packs s, ?_, ?_, rfl⟩
+  · simp only [delete, workOf, ofSt, Option.getD_none]
+    apply List.filter_congr
+    intro r hr
+    have hrow : hasRow s r.key = true := hasRow_iff.mpr (List.mem_map.mpr ⟨r, hr, rfl⟩)
+    simp [List.mem_eraseDups, hrow]
+  · intro e
+    simp only [toSt, ofSt, delete, List.mem_map, List.mem_filter]
+    constructor
+    · rintro ⟨a, ⟨⟨b, hb, rfl⟩, hne⟩, rfl⟩
+      refine ⟨hb, ?_⟩
+      have hl : hasLoose s b.1 = true := hasLoose_iff.mpr (List.mem_map.mpr ⟨b, hb, rfl⟩)
+      simpa [List.mem_eraseDups, hl] using hne
+    · rintro ⟨he, hnk⟩
+      refine ⟨_, ⟨⟨e, he, rfl⟩, ?_⟩, rfl⟩
+      have hl : hasLoose s e.1 = true := hasLoose_iff.mpr (List.mem_map.mpr ⟨e, he, rfl⟩)
+      simpa [List.mem_eraseDups, hl] using hnk
 
 /-- deleting is safe for every key that is not targeted -/
 theorem safe_delete {t : Tab} (wf : t.WF) {s : St} (inv : Inv t s) (hb : Bounded s) (ks : List Nat) :
     AllSafe t s (actsDelete s ks) ((keysOf s).filter (fun k => !ks.contains k)) := by
-  sorry
+  apply allSafe_of wf inv (kR := (rowKeys s).filter (fun k => !ks.contains k))
+    (kL := (looseKeys s).filter (fun k => !ks.contains k))
+    (fun _ h => (List.mem_filter.mp h).1) (fun _ h => (List.mem_filter.mp h).1)
+  · intro k hk
+    simpa [keysOf, List.filter_append] using hk
+  · apply stepsOK_static
+    intro a ha x
+    simp only [actsDelete, List.mem_append, List.mem_map, List.mem_singleton, List.mem_eraseDups,
+      List.mem_filter] at ha
+    rcases ha with (⟨k, ⟨hk, _⟩, rfl⟩ | ⟨k, ⟨hk, _⟩, rfl⟩) | rfl
+    · show k ∉ _
+      intro hm
+      have := (List.mem_filter.mp hm).2
+      simp [hk] at this
+    · show k ∉ _
+      intro hm
+      have := (List.mem_filter.mp hm).2
+      simp [hk] at this
+    · trivial
 
 end Dos.IO
